@@ -105,7 +105,7 @@ func manyN(t *rapid.T, label string, limit int) int {
 }
 
 func genFrom(t *rapid.T, label, alphabet string, min, max int) B {
-	if max >= 6 && len(alphabet) >= 12 && oneIn(t, label+"_needle", 160) {
+	if max >= 6 && min < max && len(alphabet) >= 12 && oneIn(t, label+"_needle", 160) {
 		return genLong(t, label+"_long", alphabet)
 	}
 	n := rapid.IntRange(min, max).Draw(t, label+"_n")
